@@ -135,4 +135,73 @@ theorem sim_ccf (b1 b2 : Nat) : Simulates 0x3f b1 b2 := by
     fuel st st' hsim (by rw [hpc]; rfl) hrun
   exact ⟨⟨h1.af, h1.hl, h1.de, h1.bc, h1.sp, h1.ip, h1.cy, h1.size⟩, h2⟩
 
+/-! ### CPL -/
+
+theorem xor_ff (a : Nat) (ha : a < 256) : u8 (a ^^^ 0xff) = 255 - a := by
+  have := Enum.forall_lt_of_allRange (fun a => u8 (a ^^^ 0xff) == 255 - a) 8 (by decide +kernel) a ha
+  simpa using this
+
+theorem table_cpl (b1 b2 : Nat) :
+    decodeCode (Gen.emitOp 0x2f) = some ([(0, Instr.not8 (R8.hi 0)), (2, Instr.alu8i AluOp.or (R8.lo 0) 96)] ++ [(4, addIp 1), (8, addCy 1)]) ∧
+    bytesOf (Gen.emitOp 0x2f) = 12 ∧ Gen.decode 0x2f b1 b2 = (.ComplementA, 1, 4) := ⟨by decide +kernel, by decide +kernel, rfl⟩
+
+/-- **CPL**: all states -/
+theorem sim_cpl (b1 b2 : Nat) : Simulates 0x2f b1 b2 := by
+  obtain ⟨hdec, hbytes, hop⟩ := table_cpl b1 b2
+  refine ⟨_, hdec, ?_⟩
+  intro β B g m fuel st st' hsim hpc _ _ hrun
+  rw [hbytes] at hrun
+  rw [hop]
+  show ∃ g', runOp B .ComplementA g m 1 = .ok (g', m, STATUS_NORMAL) ∧ Sim { g' with cycles := g'.cycles + 4 / 4 } st' ∧ Untouched st st'
+  rw [show (4 : Nat) / 4 = 1 from rfl]
+  refine ⟨advance (orF (orF (setReg g .A (u8 (getReg g .A ^^^ 0xff))) 0x40) 0x20) 1, rfl, ?_⟩
+  obtain ⟨h1, h2⟩ := sim_body B [(0, Instr.not8 (R8.hi 0)), (2, Instr.alu8i AluOp.or (R8.lo 0) 96)] 4 8 12 1 1 g
+    (orF (orF (setReg g .A (u8 (getReg g .A ^^^ 0xff))) 0x40) 0x20) rfl
+    (straight_two _ _ _ _ ⟨fun _ _ e => Instr.noConfusion e, fun _ e => Instr.noConfusion e⟩ ⟨fun _ _ e => Instr.noConfusion e, fun _ e => Instr.noConfusion e⟩)
+    (by decide) (by decide)
+    (fun st0 s2 hs hex => by
+      obtain ⟨s1, ha, hex⟩ := execList_cons B _ _ _ _ _ _ hex
+      obtain ⟨s3, hb, hex⟩ := execList_cons B _ _ _ _ _ _ hex
+      have := execList_nil B _ _ _ hex
+      subst this
+      have hA := getReg_lt g .A
+      -- not ah
+      have e1 : ∀ len, step B st0 (.not8 (.hi 0)) len =
+          .ok (set8 ({ st0 with pc := st0.pc + len } : St β) (.hi 0) (255 - get8 st0 (.hi 0))) := fun _ => rfl
+      have hgA : get8 st0 (.hi 0) = getReg g .A := get8_sim hs .A
+      rw [e1, hgA] at ha
+      injection ha with ha
+      have hs1 : Sim (setReg g .A (255 - getReg g .A)) s1 := by
+        rw [← ha]; exact set8_sim (sim_pc hs _) .A _ (by omega)
+      have r1 : ∀ j, 0 ≠ j → get s1 j = get st0 j := by
+        intro j hj; rw [← ha, get_set8_ne _ _ _ _ (by simpa [r8reg] using hj)]; rfl
+      have b1' : s1.bus = st0.bus := by rw [← ha, bus_set8]
+      have k1 : s1.stack = st0.stack := by rw [← ha, stack_set8]
+      obtain ⟨x2, r2, b2', k2, z2⟩ := step_al B .or (Or.inr (Or.inl rfl)) 96 (by decide) s1 s2 _ hs1.size hb
+      have hf1 : (get s1 0).toNat % 256 = g.af % 256 := by
+        have := hs1.af
+        have e : (setReg g .A (255 - getReg g .A)).af = (255 - getReg g .A) * 256 + g.af % 256 := setHi_eq _ _
+        rw [e] at this; omega
+      have hh1 : (get s1 0).toNat / 256 % 256 = 255 - getReg g .A := by
+        have := hs1.af
+        have e : (setReg g .A (255 - getReg g .A)).af = (255 - getReg g .A) * 256 + g.af % 256 := setHi_eq _ _
+        rw [e] at this; omega
+      rw [hf1, hh1] at x2
+      refine ⟨sim_af0 hs (fun j hj => by rw [r2 j hj, r1 j hj]) z2 ((sameButAf_setA g _).trans ((sameButAf_orF _ _).trans (sameButAf_orF _ _))) ?_,
+        untouched_of_frame (fun j hj => by rw [r2 j hj, r1 j hj]) (by rw [b2', b1']) (by rw [k2, k1])⟩
+      have hset : (setReg g .A (u8 (getReg g .A ^^^ 0xff))).af = u8 (getReg g .A ^^^ 0xff) * 256 + g.af % 256 := setHi_eq _ _
+      have i1 := orF_pack _ _ _ 0x40 (Nat.mod_lt _ (by decide)) (by decide) hset
+      have i2 := orF_pack _ _ _ 0x20 (Nat.or_lt_two_pow (n := 8) (Nat.mod_lt _ (by decide)) (by decide)) (by decide) i1
+      have hi : (orF (orF (setReg g .A (u8 (getReg g .A ^^^ 0xff))) 0x40) 0x20).af =
+          (255 - getReg g .A) * 256 + ((g.af % 256 ||| 0x40) ||| 0x20) := by rw [i2, xor_ff _ hA]
+      have e96 : bitop .or (g.af % 256) 96 = (g.af % 256 ||| 0x40) ||| 0x20 := by
+        show g.af % 256 ||| 96 = _
+        rw [Nat.or_assoc]; rfl
+      have hlt : (g.af % 256 ||| 0x40) ||| 0x20 < 256 :=
+        Nat.or_lt_two_pow (n := 8) (Nat.or_lt_two_pow (n := 8) (Nat.mod_lt _ (by decide)) (by decide)) (by decide)
+      rw [x2, hi, e96]
+      omega)
+    fuel st st' hsim (by rw [hpc]; rfl) hrun
+  exact ⟨⟨h1.af, h1.hl, h1.de, h1.bc, h1.sp, h1.ip, h1.cy, h1.size⟩, h2⟩
+
 end GbVerif.X86
